@@ -1,6 +1,7 @@
 //! sm9verif: property-based testing / fuzzing machinery for John-Yu/SM9_core (see /verif/DESIGN.md).
 pub mod conv;
 pub mod gen;
+pub mod grp;
 pub mod props;
 pub mod rf;
 pub mod runner;
